@@ -65,3 +65,7 @@ claim("C12", "directive-table agreement with doc/pargma.md, shape exhaustiveness
 claim("C16", "key-flow rules on the short-name allocator, byte-class evaluation of needsSpace over all 256 values, drop-condition and verbatim-copy obligations of the whitespace remover, lexical lint of the template corpus for shapes the remover mishandles",
       "Decides that allocated names are recorded before use, inherited by nested scopes and seeded with all reserved words, that a separator survives exactly between identifier-class bytes and between two minus signs, that strings and hints are copied verbatim and hint bytes never influence whitespace decisions, and that no template contains a shape the remover would change the meaning of. Does not decide behavioural equivalence of minified output or esbuild.",
       TB, "DESIGN.md §3 C16")
+
+claim("C13", "syntactic sibling comparison and effect (yield-point) scan over the natives overlay, delegation table for math, typed signature agreement nosync vs sync",
+      "NARROW claim: decides only that the sync/atomic overlay families are structurally identical and yield-free, that pure delegations to JavaScript Math use the matching method and argument order and the bit-pattern pairs use the same buffer words, and that nosync mirrors the signatures of sync without yield points. Value equality with the upstream implementations — the bulk of the property — is NOT decided by this technique family.",
+      TB + " The natives overlay cannot be type-checked here (GOROOT mismatch): rules on it are syntactic.", "DESIGN.md §3 C13")
